@@ -83,7 +83,7 @@ func (r *c19Recorder) take() []any {
 
 // c19Layouts: where WithRecover sits among other interceptors/options.
 func c19Layouts() []string {
-	return []string{"recover-only", "recover,x,y", "x,recover,y", "x,y,recover", "opts[x],opts[recover]", "opts[x],opts[recover],opts[y]", "handleropts[x,recover]", "one-group[x,y],recover"}
+	return []string{"recover-only", "recover,x,y", "x,recover,y", "x,y,recover", "opts[x],opts[recover]", "opts[x],opts[recover],opts[y]", "handleropts[x,recover]", "one-group[x,y],recover", "recover,empty", "x,recover,empty", "handleropts[recover,empty]", "empty,recover"}
 }
 
 type noopIcept struct{ n *int32 }
@@ -114,6 +114,14 @@ func c19Opts(layout string, rec *c19Recorder) []connect.HandlerOption {
 		return []connect.HandlerOption{connect.WithOptions(x), connect.WithHandlerOptions(rc), connect.WithOptions(y)}
 	case "handleropts[x,recover]":
 		return []connect.HandlerOption{connect.WithHandlerOptions(x, rc)}
+	case "recover,empty":
+		return []connect.HandlerOption{rc, connect.WithInterceptors()}
+	case "x,recover,empty":
+		return []connect.HandlerOption{x, rc, connect.WithInterceptors()}
+	case "handleropts[recover,empty]":
+		return []connect.HandlerOption{connect.WithHandlerOptions(rc, connect.WithInterceptors())}
+	case "empty,recover":
+		return []connect.HandlerOption{connect.WithInterceptors(), rc}
 	case "one-group[x,y],recover":
 		return []connect.HandlerOption{connect.WithInterceptors(noopIcept{}, noopIcept{}), rc}
 	}
@@ -169,7 +177,7 @@ func c19Program(kind svc.Kind, point string, v *c19Value) (*svc.Program, []*gen.
 }
 
 func c19(run *ev.Run) int {
-	run.SetRule("cases = panic values {nil, error, *connect.Error, wrapped *connect.Error, string, int, struct, pointer, error wrapping the abort sentinel, error whose Is matches it, the sentinel itself} x 4 kinds x 3 protocols x panic point {before first receive, between sends, after last send} x 8 placements of WithRecover among other interceptors/option groups x {in-memory loopback, real HTTP/1.1 and HTTP/2 servers}; sentinel cases run ServeHTTP directly under recover(); plus non-panicking calls with and without WithRecover (differential); exhaustive in this bound; distinct by (value, kind, protocol, point, placement, transport)")
+	run.SetRule("cases = panic values {nil, error, *connect.Error, wrapped *connect.Error, string, int, struct, pointer, error wrapping the abort sentinel, error whose Is matches it, the sentinel itself} x 4 kinds x 3 protocols x panic point {before first receive, between sends, after last send} x 12 placements of WithRecover among other interceptors/option groups x {in-memory loopback, real HTTP/1.1 and HTTP/2 servers}; sentinel cases run ServeHTTP directly under recover(); plus non-panicking calls with and without WithRecover (differential); exhaustive in this bound; distinct by (value, kind, protocol, point, placement, transport)")
 	values := c19Values()
 	layouts := c19Layouts()
 	points := []string{"start", "mid", "end"}
